@@ -59,7 +59,7 @@ static YR_SCANNER* scanners[MAXSLOT];
 static BLOB datas[MAXDATA];
 
 typedef struct { char* name; BLOB content; } INCL;
-static INCL includes[64];
+static INCL includes[4096];
 static int n_includes = 0;
 
 /* ---------- allocation fault injection (linked with -Wl,--wrap=... in the "fault" driver) ---------- */
@@ -737,7 +737,7 @@ int main(int argc, char** argv)
     else if (!strcmp(op, "include"))
     {
       NEED(2);
-      if (n_includes >= 64) die("too many includes");
+      if (n_includes >= 4096) die("too many includes");
       int found = -1;
       for (int i = 0; i < n_includes; i++) if (!strcmp(includes[i].name, tok[1])) found = i;
       if (found < 0) { found = n_includes++; includes[found].name = strdup(tok[1]); }
